@@ -109,13 +109,16 @@ Qed.
 
 (** ** ReadFeatures *)
 
+(** what the type switch of ReadFeatures appends for a driver value (after the repairs F18 / F19: a bool is passed on --
+    represented by the integer it is bound as --, a []byte stays a blob) *)
 Definition attr_of_drv (d : drv) : option anyv :=
   match d with
-  | DBytes b => Some (AVal (VText (bytes_text b)))
+  | DBytes b => Some (AVal (VBlob (bytes_blob b)))
   | DInt z => Some (AVal (VInt z))
   | DFloat q => Some (AVal (VReal q))
   | DTime ns => Some (AVal (VTime ns))
   | DString s => Some (AVal (VText s))
+  | DBool b => Some (AVal (value_of_bool b))
   | DNil => Some (AVal VNull)
   | DOther _ => None
   end.
@@ -247,8 +250,8 @@ Proof.
     { intros pre d post name f0 c Hv Hn. subst body. cbv beta iota zeta. cbn [src_Table].
       rewrite Hv, widx_app. cbn [wbind]. unfold row_step.
       destruct (String.eqb name (t_gcol t)).
-      - destruct d as [[id [g|]]| | | | | |]; reflexivity.
-      - destruct d as [[id dec]| | | | | |]; try reflexivity.
+      - destruct d as [[id [g|]]| | | | | | |]; reflexivity.
+      - destruct d as [[id dec]| | | | | | |]; try reflexivity.
         cbn [wbind attr_of_drv]. rewrite (widx_nth _ _ _ _ Hn). reflexivity. }
     unfold zindexed. rewrite map_length.
     pose proof (row_loop_spec _ _ _ _ Hb (t_cols t) [] [] dr (f_attrs f) (f_geom f) r gfeat_zero []
@@ -597,7 +600,7 @@ Qed.
 (** ** the rows [write_features] stored, read back *)
 
 Lemma cell_drv_of_cell : forall c, cell_drv c (drv_of_cell c).
-Proof. intros [[| | | |]|g]; constructor. Qed.
+Proof. intros [[| | | | |]|g]; constructor. Qed.
 
 Theorem read_back : forall d t ts fs,
   find_tab (t_name t) (db_tabs d) = Some ts ->
